@@ -771,6 +771,9 @@ func (d decoder) skipValue() error {
 // skipMessageValue makes the decoder parse and skip over all fields in a
 // message. It assumes that the previous read type is MessageOpen.
 func (d decoder) skipMessageValue() error {
+	if d.opts.RecursionLimit--; d.opts.RecursionLimit < 0 {
+		return errRecursionDepth
+	}
 	for {
 		tok, err := d.Read()
 		if err != nil {
